@@ -1,3 +1,75 @@
-import GV.Model.Engine
+/-
+  Props/C11.lean — Server misbehaviour or odd event timing gives a clean error, never a panic.
+  About Model/Engine.lean: the error discipline of `handle_network_event` / `service` and the Halted state.
+  (Byte-level robustness of the decoder — no panic site, terminal errors — is Props/C03.)
+-/
+import GV.Proofs.EngineState
 namespace GV.Props.C11
+open GV
+
+/-- **Any error from a network event halts the engine.** -/
+theorem error_halts (x : Engine × Res) (k : String) (h : x.2 = .err k) : (haltOnErr x).1.state = .halted ∧ (haltOnErr x).2 = .err k := by
+  simp [haltOnErr, h]
+
+theorem success_does_not_halt (x : Engine × Res) (h : x.2 = .ok) : haltOnErr x = x := by
+  simp [haltOnErr, h]
+
+/-- **A halted engine accepts no more traffic and emits nothing**: data, write completions and service calls
+    are answered with an error, produce no bytes, no completions and no events, and leave it halted. -/
+theorem halted_rejects_data (e : Engine) (t : Nat) (bs : Bytes) (h : e.state = .halted) :
+    (step e (.data t bs)).2.result = .err "InternalStateError" ∧ (step e (.data t bs)).2.bytes = [] ∧
+    (step e (.data t bs)).2.completions = [] ∧ (step e (.data t bs)).2.events = [] ∧ (step e (.data t bs)).1.state = .halted := by
+  simp [step, Engine.begin, Engine.handleData, h, haltOnErr, Engine.finish]
+
+theorem halted_rejects_service (e : Engine) (t cap pre : Nat) (h : e.state = .halted) :
+    (step e (.service t cap pre)).2.result = .err "InternalStateError" ∧ (step e (.service t cap pre)).2.bytes = [] ∧
+    (step e (.service t cap pre)).2.completions = [] ∧ (step e (.service t cap pre)).1.state = .halted := by
+  simp [step, Engine.begin, Engine.service, h, Engine.finish]
+
+theorem halted_rejects_write_completion (e : Engine) (t : Nat) (h : e.state = .halted) :
+    (step e (.writeDone t)).2.result = .err "InternalStateError" ∧ (step e (.writeDone t)).2.bytes = [] ∧
+    (step e (.writeDone t)).1.state = .halted := by
+  simp [step, Engine.begin, Engine.handleWriteCompletion, h, haltOnErr, Engine.finish]
+
+/-- a halted engine asks for no further service -/
+theorem halted_wants_no_service (e : Engine) (h : e.state = .halted) : e.nextServiceTime = some none := by
+  simp [Engine.nextServiceTime, h]
+
+/-- **The close event brings the engine — halted by an error or not — back to Disconnected**, ready for the
+    next connection, whatever else the close handler does. -/
+theorem close_recovers (e : Engine) (h : e.state ≠ .disconnected) : (e.handleClosed).1.state = .disconnected :=
+  handleClosed_state e h
+
+/-- **A decoding failure or a protocol violation in inbound data halts the engine and leaves every tracked
+    operation and every queue as it was** (they survive for the next connection or for failure by policy). -/
+theorem decode_error_keeps_operations (e : Engine) (bs : Bytes) (hs : e.state = .connected ∨ e.state = .pendingDisconnect)
+    (x : DecErr)
+    (hd : (decodeBytes { version := e.cfg.version, maxSize := e.cfg.connect.maximumPacketSize.getD maxVli } e.dec bs).err = some x) :
+    let e' := (e.handleData bs).1
+    e'.state = .halted ∧ e'.ops = e.ops ∧ e'.userQ = e.userQ ∧ e'.resubQ = e.resubQ ∧ e'.highQ = e.highQ ∧
+    e'.pendingPub = e.pendingPub ∧ e'.pendingNonPub = e.pendingNonPub ∧ e'.outBytes = e.outBytes ∧ e'.outComps = e.outComps ∧
+    (∃ k, (e.handleData bs).2 = .err k) := by
+  have h1 : (e.state == .disconnected || e.state == .halted) = false := by rcases hs with h | h <;> simp [h]
+  have h2 : (e.state == .pendingConnack) = false := by rcases hs with h | h <;> simp [h]
+  simp [Engine.handleData, h1, h2, hd]
+
+/-- AUTH is answered with an error, not a panic -/
+theorem auth_is_an_error (e : Engine) (a : Auth) : e.handlePacket (.auth a) = (e, .err "Unimplemented") := rfl
+
+/-- packets only a client sends (CONNECT, SUBSCRIBE, UNSUBSCRIBE, PINGREQ) are a protocol error when received -/
+theorem client_packets_are_errors (e : Engine) :
+    (∀ c, e.handlePacket (.connect c) = (e, .err "ProtocolError")) ∧ (∀ s, e.handlePacket (.subscribe s) = (e, .err "ProtocolError")) ∧
+    (∀ s, e.handlePacket (.unsubscribe s) = (e, .err "ProtocolError")) ∧ e.handlePacket .pingreq = (e, .err "ProtocolError") :=
+  ⟨fun _ => rfl, fun _ => rfl, fun _ => rfl, rfl⟩
+
+/-- an acknowledgement for a packet id nothing is waiting on is a protocol error and completes nothing -/
+theorem unknown_ack_is_error (e : Engine) (a : Ack) (hs : stateBlocksAcks e.state = false) (hl : e.pendingPub.lookup a.packetId = none) :
+    e.handlePuback a = (e, .err "ProtocolError") ∧ e.handlePubrec a = (e, .err "ProtocolError") ∧
+    e.handlePubcomp a = (e, .err "ProtocolError") := by
+  simp [Engine.handlePuback, Engine.handlePubrec, Engine.handlePubcomp, hs, hl]
+
+theorem unknown_suback_is_error (e : Engine) (s : Suback) (hs : stateBlocksAcks e.state = false) (hl : e.pendingNonPub.lookup s.packetId = none) :
+    e.handleSuback s = (e, .err "ProtocolError") ∧ e.handleUnsuback s = (e, .err "ProtocolError") := by
+  simp [Engine.handleSuback, Engine.handleUnsuback, hs, hl]
+
 end GV.Props.C11
